@@ -19,7 +19,7 @@ structure Sess where
   it  : SList.Iter := {}
   zit : SList.ZipIter := {}
   sit : LSeq.Cursor := {}
-  defaultMode : Bool := false   -- built by the default constructor: the C library allocator cannot be refused
+  dflt : List Bool := [false, false, false, false]   -- slot built on the C library allocator: it cannot be refused
 
 def fmtPtr (n : Nat) : Ptr → String
   | none => "-"
@@ -187,9 +187,13 @@ def iterStep (s : Sess) (c : Cmd) (m : Mem) : Sess × String × String :=
 
 /-- returns the new session, the spec line and the model line -/
 def step (s : Sess) (c : Cmd) : Sess × String × String :=
-  let s := if c.op == "new_default" then { s with defaultMode := true } else s
-  let m := s.mem.begin (if s.defaultMode then [] else c.sched)
   let k := c.nat "o" 0
+  let s := if c.op == "new_default" && (s.model.getD k none).isNone then { s with dflt := s.dflt.set k true }
+           else if c.op == "new" && (s.model.getD k none).isNone then { s with dflt := s.dflt.set k false } else s
+  -- a derived list inherits the allocator of its source
+  let s := if c.op.startsWith "mk_" && (s.model.getD (c.nat "to" 1) none).isNone then { s with dflt := s.dflt.set (c.nat "to" 1) (s.dflt.getD k false) } else s
+  let useK := if c.op.startsWith "it_" || c.op.startsWith "dit_" || c.op.startsWith "zit_" then s.itO else k
+  let m := s.mem.begin (if s.dflt.getD useK false then [] else c.sched)
   let from_ := c.nat "from" 1
   let to := c.nat "to" 1
   let v := c.arg 0
